@@ -58,3 +58,34 @@ def Warrior.absQueue (w : Warrior) : List Nat :=
   | some q => q.toList.map (·.toNat)
 
 end Gmars
+
+namespace Gmars
+
+/-- every instruction of every added warrior has its fields below the core size
+    (what assembler and loader guarantee for the configured core size) -/
+def Sim.CodeOK (s : Sim) : Prop :=
+  ∀ i (h : i < s.warriors.size), ∀ c ∈ s.warriors[i].data.code.toList, c.a < s.m ∧ c.b < s.m
+
+/-- operations of the public simulator API that change state -/
+inductive ApiOp
+  | add (d : WarriorData)
+  | spawn (wi : Int) (off : UInt64)
+  | runCycle
+  | run
+  | reset
+  deriving Repr
+
+/-- apply one API operation (the value results are dropped; `Run` uses the fuel that
+    `run_terminates` shows sufficient) -/
+def Sim.applyOp (s : Sim) : ApiOp → Except Panic Sim
+  | .add d => .ok (s.addWarrior d)
+  | .spawn wi off => (s.spawn wi off).map (·.1)
+  | .runCycle => s.runCycle.map (·.1)
+  | .run => (s.runLoop (s.maxCycles.toNat + 2)).map (·.1)
+  | .reset => .ok s.reset
+
+def Sim.applyOps (s : Sim) : List ApiOp → Except Panic Sim
+  | [] => .ok s
+  | op :: ops => do let s' ← s.applyOp op; s'.applyOps ops
+
+end Gmars
